@@ -755,11 +755,42 @@ def run(ctx):
         # of foreign classes (JSONDecodeError.pos, OSError.errno, ...)
         caught = {h.name for h in walk_no_nested(f.node)
                   if isinstance(h, ast.ExceptHandler) and h.name}
+        # names holding the result of a stdlib / builtin call (a match, a file,
+        # a datetime, ...): their attributes are not the library's
+        def foreign_call(e):
+            if not isinstance(e, ast.Call):
+                return False
+            ent = repo.resolve_expr(f.module, e.func)
+            if isinstance(ent, External):
+                return not ent.name.startswith("builtins.") or \
+                    ent.name in ("builtins.open",)
+            if isinstance(e.func, ast.Attribute):
+                ent = repo.resolve_expr(f.module, e.func.value)
+                return isinstance(ent, (Module, External)) and not (
+                    isinstance(ent, Module) and ent.name.startswith("gfapy"))
+            return isinstance(e.func, ast.Name) and e.func.id == "open"
+        foreign_names = set()
+        for n in walk_no_nested(f.node):
+            if isinstance(n, ast.Assign) and foreign_call(n.value):
+                for t in n.targets:
+                    if isinstance(t, ast.Name):
+                        foreign_names.add(t.id)
+            if isinstance(n, ast.With):
+                for it in n.items:
+                    if foreign_call(it.context_expr) and \
+                            isinstance(it.optional_vars, ast.Name):
+                        foreign_names.add(it.optional_vars.id)
         for n in walk_no_nested(f.node):
             if not (isinstance(n, ast.Attribute) and
                     isinstance(n.ctx, ast.Load)):
                 continue
             if isinstance(n.value, ast.Name) and n.value.id in caught:
+                continue
+            root = n.value
+            while isinstance(root, (ast.Attribute, ast.Subscript)):
+                root = root.value
+            if foreign_call(root) or (isinstance(root, ast.Name) and
+                                      root.id in foreign_names):
                 continue
             ent = repo.resolve_expr(f.module, n.value)
             if isinstance(ent, (Module, External)):
